@@ -307,7 +307,14 @@ def shards(tier):
 
 
 FRAMINGS = [('plain', b'', True), ('decl', b'<?xml version="1.0"?>', True), ('decl-encoding', b'<?xml version="1.0" encoding="utf-8"?>', True),
-            ('decl-encoding,no-charset', b'<?xml version="1.0" encoding="utf-8"?>', False), ('plain,no-charset', b'', False)]
+            ('decl-encoding,no-charset', b'<?xml version="1.0" encoding="utf-8"?>', False), ('plain,no-charset', b'', False),
+            # SOAP with attachments: the envelope is the root part of a multipart/related body, followed by one attachment
+            ('multipart', b'<?xml version="1.0"?>', 'multipart')]
+
+
+def multipart_body(envelope):
+    return (b'--VFBOUND\r\nContent-Type: text/xml; charset=utf-8\r\nContent-ID: <root>\r\n\r\n' + envelope +
+            b'\r\n--VFBOUND\r\nContent-Type: application/octet-stream\r\nContent-ID: <att1>\r\nContent-Transfer-Encoding: base64\r\n\r\nQUJD\r\n--VFBOUND--\r\n')
 
 
 def run_one(h, wsgi, proto, transport, data, charset=True):
@@ -315,7 +322,10 @@ def run_one(h, wsgi, proto, transport, data, charset=True):
     b.rec.reset()
     b.rec.script['m'] = ('ret', 'fine')
     if transport == 'wsgi':
-        env = drv.environ('POST', '/', '', data, content_type='text/xml; charset=utf-8' if charset else 'text/xml')
+        if charset == 'multipart':
+            env = drv.environ('POST', '/', '', multipart_body(data), content_type='multipart/related; boundary=VFBOUND; start="<root>"; type="text/xml"')
+        else:
+            env = drv.environ('POST', '/', '', data, content_type='text/xml; charset=utf-8' if charset else 'text/xml')
         o = drv.call_wsgi(wsgi, env)
         code = None
         if not (o.status or '').startswith('2') and o.out:
@@ -539,6 +549,8 @@ def run_shard(shard, only=None):
             for (kind, pos, data0), (fid, prolog, charset) in itertools.product(list(attack_docs(valid, mon, proto)), FRAMINGS):
                 # framing: XML declaration (with / without encoding=) x charset announced by the transport or not -
                 # the protocols choose their parsing path by these
+                if charset == 'multipart' and not (transport == 'wsgi' and proto in ('soap11', 'soap12')):
+                    continue
                 data = prolog + data0
                 key = [kind, pos, fid]
                 if only is not None and only != key:
